@@ -215,6 +215,14 @@ def special_zone(i, footer):
     return "gen/special-%d-%s" % (i, footer.decode().replace("/", "_")), tzif(2, trans, types, footer)
 
 
+def spill_zone(i, footer, last, last_type=2):
+    """The last recorded entry lies in the opening days of a civil year while a rule period of the PREVIOUS rule year is still
+    open (rule time beyond 24 h): the footer's next change is that period's end, a few days later in the same civil year."""
+    types = [(-1000, False, b"LMT"), (0, False, b"AAA"), (3600, True, b"BBB")]
+    trans = [(-2000000000, 1), (923702400, 2), (last, last_type)]           # 1999-04-10 -> BBB, then the entry in early January
+    return "gen/special-spill-%d-%s" % (i, footer.decode().replace("/", "_")), tzif(3, trans, types, footer)
+
+
 def fresh_types_zone(i, footer):
     """The recorded data use types the footer does not (the loader has to create the footer's types itself)."""
     types = [(-1234, False, b"LMT"), (-18000, False, b"OLD")]
@@ -261,6 +269,8 @@ def write_corpus(outdir, seed, n):
               old_zone(4, b"EST5EDT,M3.2.0,M11.1.0", -10535032704), old_zone(5, b"EST5EDT,M4.5.0,M10.5.0", -6000000000),
               # data ending in year -201 (last_year_ = 200, not negative) and in year 1200
               old_zone(6, b"EST5EDT,M3.2.0,M11.1.0", -68500000000), old_zone(7, b"EST5EDT,M3.2.0,M11.1.0", -24299000000)]
+    # 2000-01-02: inside the spill of the 1999 period of "J100/0,J365/167" (ends 2000-01-06T22:00Z); a no-op entry and a real one
+    items += [spill_zone(0, b"AAA0BBB,J100/0,J365/167", 946771200), spill_zone(1, b"AAA0BBB,J100/0,J365/100", 946771200)]
     items += [fresh_types_zone(0, b"NEW5NDT,0/-6,0/-2"), fresh_types_zone(1, b"NEW5NDT,M3.2.0,M11.1.0"), fresh_types_zone(2, b"OLD5NDT,J338/11,M12.5.0")]
     items += [rand_zone(r, i) for i in range(n)]
     for name, data in items:
